@@ -1,5 +1,5 @@
 CONSTANTS
-  NSet = {1, 2, 3, 4}
+  NSet = {0, 1, 2, 3, 4}
   MSSet = {0, 1, 3, 4, 5, 8}
   CDSet = {0, 3, 7, 11}
   IVSet = {1, 2, 3}
